@@ -424,6 +424,29 @@ func init() {
 				composed = append(composed, baseCase("c03-composed", schema, docs, "array-branches", a.name, fmt.Sprintf("required=%v #%d", required, ai)))
 			}
 		}
+		// arrays whose items are `null`-typed, with and without item counts, flat and nested: every element must be null
+		for ni, nsch := range []M{
+			{"type": "array", "items": M{"type": "null"}},
+			{"type": "array", "items": M{"type": "null"}, "minItems": 1, "maxItems": 3},
+			{"type": "array", "items": M{"type": "null"}, "maxItems": 2},
+			{"type": "array", "items": M{"type": "array", "items": M{"type": "null"}}, "maxItems": 2},
+			{"type": "array", "items": M{"type": "array", "items": M{"type": "null"}, "minItems": 1}},
+		} {
+			for _, required := range []bool{false, true} {
+				schema := M{"type": "object", "properties": M{"v": sgen.DeepCopy(nsch), "n": M{"type": "string"}}}
+				if required {
+					schema["required"] = []any{"v"}
+				}
+				var docs []any
+				if ni < 3 {
+					docs = []any{M{"v": []any{nil}}, M{"v": []any{nil, nil}}, M{"v": []any{1}}, M{"v": []any{nil, "x"}}, M{"v": []any{M{}}}, M{"v": []any{[]any{}}}, M{"v": []any{false}}, M{"v": "s"}}
+				} else {
+					// (a null where an inner ARRAY is expected is the null convention, DESIGN 1.3: left out)
+					docs = []any{M{"v": []any{[]any{nil}}}, M{"v": []any{[]any{nil}, []any{7}}}, M{"v": []any{[]any{nil, "x"}}}, M{"v": []any{[]any{true}}}, M{"v": []any{1}}}
+				}
+				composed = append(composed, baseCase("c03-composed", schema, docs, "arrays-of-nulls", fmt.Sprintf("#%d required=%v", ni, required)))
+			}
+		}
 		// keywords that are PRESENT WITH AN EMPTY VALUE next to a typed additionalProperties (properties: {}, required: [],
 		// definitions: {}): an object without declared members is a typed map whatever else is spelled out emptily
 		for _, at := range []M{{"type": "object"}, {"type": "array", "items": M{"type": "string"}}, {"type": "integer"}, {"type": "string"}, {"type": "boolean"}, {"type": "number"}} {
@@ -590,6 +613,32 @@ func init() {
 				docs = append(docs, g.Sample(root, 0))
 			}
 			pcs = append(pcs, baseCase("c02-valid", root, docs, "constraint-free"))
+		}
+		// `type` LISTS of three or more entries (with and without "null", in several orders), inline and as a definition
+		// reached by $ref from a member and from array items: a value of EVERY listed type is valid
+		for li, tl := range [][]any{{"string", "integer", "null"}, {"null", "string", "integer"}, {"string", "null", "integer"}, {"string", "integer", "boolean"},
+			{"number", "string", "null", "boolean"}, {"integer", "string"}, {"object", "string", "null"}, {"array", "integer", "null"}} {
+			val := map[string]any{"string": "PROJ-42", "integer": 42, "number": 1.5, "boolean": true, "null": nil, "object": M{"k": 1}, "array": []any{1, "x"}}
+			for _, shape := range []string{"inline", "ref", "items-ref", "root-of-definition-file"} {
+				if shape == "root-of-definition-file" {
+					continue
+				}
+				node := M{"type": tl}
+				schema := M{"type": "object", "properties": M{"id": node, "title": M{"type": "string"}}, "required": []any{"id"}}
+				mk := func(v any) any { return M{"id": v, "title": "t"} }
+				switch shape {
+				case "ref":
+					schema = M{"type": "object", "$defs": M{"Identifier": node}, "properties": M{"id": M{"$ref": "#/$defs/Identifier"}, "title": M{"type": "string"}}, "required": []any{"id"}}
+				case "items-ref":
+					schema = M{"type": "object", "$defs": M{"Identifier": node}, "properties": M{"id": M{"type": "array", "items": M{"$ref": "#/$defs/Identifier"}}}, "required": []any{"id"}}
+					mk = func(v any) any { return M{"id": []any{v, v}} }
+				}
+				var docs []any
+				for _, tn := range tl {
+					docs = append(docs, mk(val[tn.(string)]))
+				}
+				pcs = append(pcs, baseCase("c02-valid", schema, docs, "type-list", fmt.Sprintf("#%d %s", li, shape)))
+			}
 		}
 		// enums that LIST null among members of one other type, at positions held by value (required member, array item):
 		// null is then a valid value like any other member
